@@ -476,16 +476,22 @@ func c12LineColArithmetic(c *Ctx) {
 		}
 	}
 	// the index: the loop-carried integer compared with pos
-	var idx *ssa.Phi
+	// (the index of an index loop, or of a range over the bytes: rangeindex phi + 1)
+	var idx ssa.Value
 	allInstrs(gl, func(in ssa.Instruction) {
 		b, ok := in.(*ssa.BinOp)
-		if !ok || b.Op != token.EQL {
+		if !ok || (b.Op != token.EQL && b.Op != token.NEQ) {
 			return
 		}
 		for _, pair := range [][2]ssa.Value{{b.X, b.Y}, {b.Y, b.X}} {
 			if pair[1] == ssa.Value(pos) {
 				if ph, ok := pair[0].(*ssa.Phi); ok && loopCarried(ph) {
 					idx = ph
+				}
+				if bo, ok := pair[0].(*ssa.BinOp); ok && bo.Op == token.ADD {
+					if ph, ok := bo.X.(*ssa.Phi); ok && ph.Comment == "rangeindex" {
+						idx = bo
+					}
 				}
 			}
 		}
@@ -530,6 +536,8 @@ func c12LineColArithmetic(c *Ctx) {
 		}
 		one, isOne := constInt(b.Y)
 		switch {
+		case ssa.Value(b) == idx:
+			// the index of a range loop, itself `rangeindex + 1`
 		case b.Op == token.ADD && isOne && one == 1 && b.X == ssa.Value(idx):
 			// i + 1: the loop step (in the latch) or the new line start (under the newline test)
 			if atNewline(b.Block()) {
